@@ -970,10 +970,6 @@ theorem sumCalls_ok (N : Nat) (callee : Nat → Nat → Built) (extra : List Nat
 theorem sumPre_elim {m : Params → Nat} {p : Params} {b : Nat} (h : sumPre m p b = true) :
     partTotal p.n p.kinds + m p ≤ b := by simpa [sumPre] using h
 
-theorem tt_pre (c N extra : Nat) (hc : c = 1 ∨ c = 2) :
-    ttPre (fun _ _ => true) { k := c, n := N } (dflt (N + c + extra)).length = true := by
-  rcases hc with rfl | rfl <;> simp [ttPre] <;> omega
-
 theorem chk_partCopy (N k : Nat) : specCheck .pureFresh (partSize N k) (partCopy N k) = true := by
   unfold partCopy partSize
   split
